@@ -53,7 +53,9 @@ def build_U(spec):
     U = O.quat_to_mat(spec["q"])
     k = spec["kind"]
     if k == "f32":
-        U = U.astype(np.float32).astype(float)
+        U = U.astype(np.float32)
+        if spec["q"][0] > 0:
+            U = U.astype(float)          # single-precision values held in a float64 array / a genuine float32 array
     elif k == "noise7":
         U = U + 1e-7 * np.array(spec["noise"]).reshape(3, 3)
     elif k == "improper":
